@@ -387,6 +387,8 @@ def shrink(propmod, plan, target_cls, worker, max_runs=400):
         return any(v.cls == target_cls for v in propmod.check(p, res))
 
     cur = plan.copy()
+    if isinstance(plan.meta, dict) and plan.meta.get('no_shrink'):
+        return cur, 0      # the plan's trailing cycles are what gives the driver time to serve: a shorter plan asks another question
     if getattr(propmod, 'NO_CYCLE_SHRINK', False):
         # the plan has a structure (identical rounds) that cycle removal would break: the module shrinks its own template
         if hasattr(propmod, 'shrink_args'):
